@@ -687,6 +687,12 @@ def run_big(ctx, yaw, edges_choices):
                     parts.append([float(x) for t in tabs for x in getattr(pr["cf"], t).counts.counts.ravel()])
                     drop(pr)
             except Exception as e:
+                if mode == "ids" and "not aligned" in str(e):
+                    # patches made from ids: every catalog has centres of its own (the means of its rows), and the library refuses
+                    # catalogs whose centres are apart by more than half a radius of the largest one.  The part without the far row
+                    # is a tight core (radius 0.03 p) - refused, by that heuristic, against the rings of the others.  Not a statement
+                    # of this property (the guard is C12's); counted
+                    ctx.bump("large:split_part_refused_by_the_alignment_guard(ids)"); continue
                 add("1%nat", ("large", sc, "split:" + sk), dict(meta, error="%s: %s" % (type(e).__name__, str(e)[:200])),
                     one("c13-split-twin-refused:large-catalog", "a part of a split catalog of an accepted measurement raises"))
                 continue
